@@ -678,13 +678,20 @@ class RefCircuit(Model):
             raise ModelRaise("ValueError", f"bad node name {n!r}")
         if n[0] in "0123456789":
             raise ModelRaise("ValueError", f"cannot add node starting with int: {n}")
+        existed = n in self.graph
         self.graph.add_node(n, type=node_type, output=output)
         if add_connected_nodes:
             for f in fanin + fanout:
                 if f not in self:
                     self.add(f, "buf")
-        self.connect(n, fanout)
-        self.connect(fanin, n)
+        try:
+            self.connect(n, fanout)
+            self.connect(fanin, n)
+        except ModelRaise:
+            # a rejected call adds no edge: the node this call created goes away with whatever was wired to it
+            if not existed:
+                self.graph.remove_node(n)
+            raise
         return n
 
     def remove(self, ns):
@@ -867,11 +874,18 @@ class RefCircuit(Model):
         for bb_name, bb in sc.blackboxes.items():
             self.blackboxes[f"{name}_{bb_name}"] = bb
         if connections:
-            for k, ns in connections.items():
-                if k in sc_in:
-                    self.connect(ns, f"{name}_{k}")
-                elif k in sc_out:
-                    self.connect(f"{name}_{k}", ns)
+            try:
+                for k, ns in connections.items():
+                    if k in sc_in:
+                        self.connect(ns, f"{name}_{k}")
+                    elif k in sc_out:
+                        self.connect(f"{name}_{k}", ns)
+            except ModelRaise:
+                # a rejected connection leaves nothing of the splice behind
+                self.graph.remove_nodes_from([f"{name}_{n}" for n in sc])
+                for k in sc.blackboxes:
+                    self.blackboxes.pop(f"{name}_{k}", None)
+                raise
 
     def add_blackbox(self, blackbox, name, connections=None):
         if name in self.blackboxes:
@@ -886,11 +900,17 @@ class RefCircuit(Model):
             self.add(f"{name}.{n}", "bb_output")
         self.blackboxes[name] = blackbox
         if connections:
-            for k, ns in connections.items():
-                if k in blackbox.inputs():
-                    self.connect(ns, f"{name}.{k}")
-                else:
-                    self.connect(f"{name}.{k}", ns)
+            try:
+                for k, ns in connections.items():
+                    if k in blackbox.inputs():
+                        self.connect(ns, f"{name}.{k}")
+                    else:
+                        self.connect(f"{name}.{k}", ns)
+            except ModelRaise:
+                # a rejected connection leaves no partly connected instance
+                self.graph.remove_nodes_from([f"{name}.{p}" for p in blackbox.io()])
+                self.blackboxes.pop(name, None)
+                raise
 
     def fill_blackbox(self, name, c):
         if name not in self.blackboxes:
